@@ -85,6 +85,41 @@ def h_de(L, T, parts, kind):
     return 'accepted'
 
 
+def h_in_place(L, T, parts, existing):
+    """Deserialize::deserialize_in_place over an existing PURL, when the crate overrides it: same outcome as deserialize, and the place
+    holds exactly the parsed value afterwards (serde's default does `*place = deserialize(d)?`, which needs no check)"""
+    I = L.I
+    imp = None
+    for im in I.prog.impls:
+        if im.trait is not None and im.trait[1] == 'Deserialize' and 'deserialize_in_place' in im.methods and im.self_ty[1].endswith('GenericPurl'):
+            imp = im
+    if imp is None:
+        return 'not-overridden'
+    s, _ = template_bytes(L, parts)
+    L.assume_utf8(s)
+    req = {'op': 'serde', 'T': KINDS[T][1], 'value': {'kind': 'str', 'payload': SymStr(s)}, 'in_place': SymStr(list(existing.encode()))}
+    L.expect_native(req, {})
+    try:
+        direct = from_str(I, T, s)
+        ex = from_str(I, T, list(existing.encode()))
+        cell = [ex.fields[0]]
+        de = ModelDeserializer('str', list(s))
+        r = I.call('<GenericPurl<%s> as Deserialize<\'_>>::deserialize_in_place::<ModelDeserializer>' % tytext(T), [de, Ref(cell, 0)])
+    except Panic as e:
+        L.fail('panic: %s' % e.msg)
+        return 'panic'
+    if direct.variant == 'Err':
+        if r.variant != 'Err':
+            L.fail('deserialising in place succeeds although from_str refuses the string')
+        return 'rejected'
+    if r.variant != 'Ok':
+        L.fail('deserialising in place fails although from_str accepts the string')
+        return 'accepted'
+    if not I.ctx.decide(purl_eq(I, T, direct.fields[0], cell[0])):
+        L.fail('after deserialising in place the value differs from from_str of the same string')
+    return 'accepted'
+
+
 def h_nonstring(L, T, kind):
     I = L.I
     js = {'u64': b'12', 'i64': b'-3', 'bool': b'true', 'unit': b'null', 'seq': b'["pkg:t/n"]', 'map': b'{"a":1}', 'f64': b'1.5',
@@ -122,6 +157,9 @@ def queries(tier):
                     continue
                 qs.append(Query('%s deserialize(%s) %s' % (T, kind, show_template(parts)), h_de, {'T': T, 'parts': parts, 'kind': kind},
                                 bound='string value %s handed to the visitor as %s' % (show_template(parts), kind), prog='serde'))
+        for parts in (['pkg:%s/' % ty, ('hole', 'h', 3)], ['pkg:', ('hole', 'h', 4)], ['pkg:%s/n' % ty, ('hole', 'h', 3)]):
+            qs.append(Query('%s deserialize_in_place %s' % (T, show_template(parts)), h_in_place, {'T': T, 'parts': parts, 'existing': 'pkg:%s/ns/old@1?k=v#s' % ty},
+                            bound='string value %s deserialised over the existing value pkg:%s/ns/old@1?k=v#s (only if the crate overrides deserialize_in_place)' % (show_template(parts), ty), prog='serde'))
         for kind in ('u64', 'i64', 'bool', 'unit', 'seq', 'map', 'f64', 'bytes'):
             qs.append(Query('%s deserialize non-string %s' % (T, kind), h_nonstring, {'T': T, 'kind': kind}, bound='a %s value of the serde data model' % kind, prog='serde'))
     return qs
@@ -135,6 +173,12 @@ def confirm(v, resp):
     if 'panic' in resp:
         return 'panicked: %s' % resp['panic']
     de = resp.get('de', {})
+    if resp.get('value_kind') == 'in_place':
+        if 'ok' in de:
+            if not resp.get('from_str_ok'):
+                return 'deserialising in place succeeds although from_str refuses the string'
+            return None if resp.get('same_as_from_str') else 'after deserialising in place over an existing value the PURL differs from from_str of the same string'
+        return 'deserialising in place fails (%s) although from_str accepts the string' % de.get('err') if resp.get('from_str_ok') else None
     if resp.get('value_kind') == 'bytes':
         return 'a bytes value deserialises to a PURL' if 'ok' in de else None
     if 'ok' in de:
